@@ -36,7 +36,7 @@ class C20(Prop):
                "functools.lru_cache as modelled in PkgModel/Cache.lean (tied by correspondence incl. miss counts)"]
     partial = ["hash-seed / call-order independence of the real code is observed on a battery, not proved; the proved part is "
                "cache transparency here and iteration-order invariance next to the models that iterate (C05, C06, C17)"]
-    budget = {"quick": (400, 60), "thorough": (40000, 4000)}
+    budget = {"quick": (400, 1600), "thorough": (40000, 60000)}
 
     # ---- correspondence: the cache model
     def gen_cases(self, rng, n):
@@ -69,11 +69,12 @@ class C20(Prop):
     def gen_laws(self, rng, n):
         k = 0
         while k < n:
-            if k % 10 == 0:
+            if k % 200 == 0:
                 yield ("transcript_independent", {"battery": rng.randrange(1000), "hashseeds": [rng.randrange(1, 4000), rng.randrange(1, 4000)],
                                                   "orders": [rng.randrange(1000), rng.randrange(1000)]})
             else:
-                kind = rng.choice(["set_clause_order", "req_extras_order", "tag_order", "meta_key_order", "env_key_order", "filter_untouched"])
+                kind = rng.choice(["set_clause_order", "req_extras_order", "tag_order", "meta_key_order", "env_key_order", "filter_untouched",
+                                   "object_stable", "object_stable"])
                 inp = {"seed": rng.randrange(1 << 30)}
                 if kind == "set_clause_order":
                     inp["clauses"] = _clause_list(rng)
@@ -146,6 +147,63 @@ class C20(Prop):
             r1, r2 = m.evaluate(e1), m.evaluate(e2)
             if r1 != r2 or e1 != env or e2 != env:
                 return False, "evaluate depends on / modifies the environment mapping"
+            return True, ""
+        if law == "object_stable":
+            # objects keep their value and hash across reads / operations performed on them
+            from gen import misc as GM
+            from packaging import requirements
+            kind = rng.choice(["Marker", "Marker", "Requirement", "Requirement", "Specifier", "SpecifierSet", "Version", "Tag", "Metadata"])
+            if kind == "Marker":
+                text = GM.marker(rng, 3); mk = lambda: markers.Marker(text)
+            elif kind == "Requirement":
+                from props.C08 import render, req_struct
+                text = render(rng, req_struct(rng)); mk = lambda: requirements.Requirement(text)
+            elif kind == "Specifier":
+                text = GS.clause(rng); mk = lambda: specifiers.Specifier(text)
+            elif kind == "SpecifierSet":
+                text = ",".join(GS.clause(rng, ws=False) for _ in range(rng.randrange(0, 4))); mk = lambda: specifiers.SpecifierSet(text)
+            elif kind == "Version":
+                text = GV.spell(rng, GV.struct(rng)); mk = lambda: version.Version(text)
+            elif kind == "Tag":
+                text = "Py3-None-Any"; mk = lambda: tags.Tag("Py3", "None", "Any")
+            else:
+                text = "raw metadata"
+                raw = {"metadata_version": "2.3", "name": "Foo", "version": "1.0", "requires_dist": ["a>=1; extra == 'X_y'"], "provides_extra": ["X_y"],
+                       "requires_python": ">=3.8", "dynamic": ["Classifier"]}
+                mk = lambda: metadata.Metadata.from_raw(dict(raw))
+            try:
+                obj, twin = mk(), mk()
+            except Exception:  # noqa: BLE001
+                raise ValueError("outside the law's domain: object cannot be built")
+
+            def snap(o):
+                if kind == "Metadata":
+                    return [o.name, str(o.version), [str(r) for r in o.requires_dist], o.provides_extra, str(o.requires_python), o.dynamic, o.summary]
+                return [str(o), repr(o).split(" @ ")[0], hash(o), o == twin, o in {twin}]
+            before = snap(obj)
+            cands = [GV.spell(rng, GV.struct(rng)) for _ in range(4)]
+            for _ in range(rng.randrange(1, 6)):
+                try:
+                    if kind == "Marker":
+                        obj.evaluate(rng.choice([{}, {"extra": "A_b"}, {"os_name": "nt", "extra": None}, {"python_full_version": "3.9.0+"}]))
+                    elif kind == "Requirement":
+                        rng.choice([lambda: obj.marker and obj.marker.evaluate({"extra": "X"}), lambda: list(obj.specifier.filter(cands)),
+                                    lambda: obj == twin, lambda: str(obj), lambda: hash(obj)])()
+                    elif kind in ("Specifier", "SpecifierSet"):
+                        rng.choice([lambda: obj.contains(cands[0]), lambda: list(obj.filter(cands)), lambda: obj.prereleases, lambda: obj == twin,
+                                    lambda: (obj & twin) if kind == "SpecifierSet" else str(obj), lambda: cands[1] in obj])()
+                    elif kind == "Version":
+                        rng.choice([lambda: obj < twin, lambda: obj.public, lambda: obj.is_prerelease, lambda: sorted([obj, twin]), lambda: specifiers.Specifier(">=0").contains(obj)])()
+                    elif kind == "Tag":
+                        rng.choice([lambda: obj == twin, lambda: {obj, twin}, lambda: str(obj)])()
+                    else:
+                        rng.choice([lambda: obj.requires_dist, lambda: obj.name, lambda: obj.version, lambda: obj.requires_dist[0].marker.evaluate({"extra": "x-y"}),
+                                    lambda: obj.provides_extra, lambda: obj.requires_python.contains("3.9")])()
+                except Exception:  # noqa: BLE001  (documented failures are other properties' business)
+                    pass
+            after = snap(obj)
+            if before != after:
+                return False, f"{kind}({text!r}) changed value/hash after being used: {before} -> {after}"
             return True, ""
         if law == "filter_untouched":
             near = GV.struct(rng)
